@@ -58,6 +58,42 @@ def table_part(ctx):
     return failing
 
 
+def printers_part(ctx):
+    """wave 3: an explicit print shows the object it is given and nothing else — every public (buffer, length) printer,
+    enumerated from the AST, on objects whose inner lengths claim more than the buffer holds; adjacent secret region
+    (for TLS records: the layout of a live TLS_CONNECT) must not appear in the output, exact-size blocks must not be over-read."""
+    import printers
+    t0 = time.time()
+    pr = printers.printers(core.REPO, core.BUILD, "asan")
+    g = os.path.join(core.BUILD, "gen_c19")
+    os.makedirs(g, exist_ok=True)
+    printers.emit(pr, os.path.join(g, "printers.h"))
+    exe, log = core.build_harness("C19pr", "asan", sources=[os.path.join(core.ROOT, "props", "C19", "pr_harness.c")],
+                                  extra="-I%s -I%s" % (os.path.join(core.ROOT, "props", "C18"), g))
+    if exe is None:
+        ctx.violation("printers:harness-build", "printer harness does not build against the current tree: " + log[-500:], {"kind": "correspondence", "log": log[-3000:]}, False)
+        return
+    sd = ctx.rng.below(10**6)
+    lines = [("printer %s %d %d" % (fam, i, sd), n) for fam in ("A", "B", "C") for i, n in enumerate(pr[fam])]
+    outs, err = core.run_lines(exe, [l[0] for l in lines], shards=4, env={"VERIF_STDERR": "1"})   # keep the sanitizer report: it names the fault
+    other = []
+    for (line, name), o in zip(lines, outs):
+        ctx.cov["evaluations"] += 1
+        ctx.count("printer")
+        if o.startswith("CLEAN"):
+            ctx.cell("printer:%s:%s" % (line.split()[1], "prints" if "printed=0" not in o else "silent"))
+        elif o.startswith("LEAK") or o.startswith("FAULT asan:heap-buffer-overflow") or o.startswith("FAULT asan:stack-buffer-overflow") or o.startswith("FAULT asan:global-buffer-overflow"):
+            ctx.violation("printer:" + name, "%s() prints memory beyond the (buffer, length) it was given when an inner length field claims more than the buffer holds: `%s` -> %s" % (
+                name, line, o[:200]), {"kind": "failing-input", "op": line, "impl": o, "expected": "CLEAN (only bytes of the object itself are printed)", "variant": "asan",
+                                       "stderr": err[-1500:] if o.startswith("FAULT") else ""}, True)
+        else:
+            other.append("%s: %s" % (name, o[:80]))
+    ctx.cov["printer_crashes_not_overreads"] = other
+    if other:
+        ctx.notes.append("printers that crash without over-reading (memory-safety findings of C06, not C19): " + "; ".join(other))
+    ctx.notes.append("printers: %d public (buffer, length) printers (%s) x ~850 inputs each in %.1fs" % (len(lines), {k: len(v) for k, v in pr.items()}, time.time() - t0))
+
+
 def cases(ctx):
     r = ctx.rng
     thorough = ctx.tier == "thorough"
@@ -108,6 +144,7 @@ def run(ctx):
             else:
                 ctx.violation("runtime:" + cell, "capture harness failed on `%s`: %s" % (line, o[:200]),
                               {"kind": "failing-input", "op": line, "impl": o, "expected": "CLEAN", "variant": "asan", "stderr": err[-1500:]}, True)
+    printers_part(ctx)
     if tlsrun is not None:
         try:
             tlsrun.c19_handshakes(ctx, leaks)
